@@ -70,8 +70,8 @@ b29f222 complete_multipart_upload into a bucket that no longer exists is `NoSuch
 c55c267 delete_objects reports every requested key as deleted and accepts a key named twice;
 764f144 list_parts returns the parts in ascending part-number order;
 41e1cf2 an upload exists only under the bucket and key it was created for: `NoSuchUpload` under any other;
-fa59617 complete_multipart_upload accepts any strictly ascending part numbers (gaps allowed);
-a00e4e8 complete_multipart_upload validates the part list with the store's codes in the store's order (`MalformedXML`, `InvalidPartOrder`, `InvalidPart`, `EntityTooSmall`);
+dbb8684 complete_multipart_upload accepts any strictly ascending part numbers (gaps allowed);
+0fcb858 complete_multipart_upload validates the part list with the store's codes in the store's order (`MalformedXML`, `InvalidPartOrder`, `InvalidPart`, `EntityTooSmall`);
 b89afe2 ranged reads: covered for all ranges by `C18_get_refines_partial` and `C18_range_check`, the kernel cannot
 evaluate the decimal formatter of `Content-Range`) -/
 
